@@ -51,6 +51,10 @@ def run(db, chk):
     chk.rule("C01-E5", "MST re-routing (basic and carve): every node between the pit and the pass "
              "inflow ends up draining through the pass outflow, for every aliasing of pit / pass "
              "inflow and every order of the pass elevations", min_instances=18)
+    chk.rule("C01-E7", "MST resolver: whenever an outlet is not a base level (a pit exists) the basin graph is "
+             "updated and the sinks re-routed -- the early exit is taken only without pits; for every "
+             "combination of base / non-base outlets and base levels that are not outlets (masked)",
+             min_instances=20)
     chk.rule("C01-E4", "MST resolver: donors, bottom-up and breadth-first orders are rebuilt after "
              "re-routing and before the tilt reads them", min_instances=1)
     n_sc = 0
@@ -147,6 +151,7 @@ def run(db, chk):
                     detail="; ".join(bad[:3]), sample=(n_sc % 97 == 1), extra={"unit": uname})
         # ---------------------------------------------------------------- E5
         n_sc += reroute_rule(db, chk, uname, impls)
+        n_sc += pits_trigger_rule(db, chk, uname, impls)
         # ---------------------------------------------------------------- E4
         C06.order_rule(db, Effects(db), chk, uname, "C01-E4", only_op=MST)
     chk.absorb(db, "C09", {"C09-P2"}, "C01-E6", "the basin graph / resolver scratch state is reset at every "
@@ -154,6 +159,85 @@ def run(db, chk):
                pred=lambda o: "basin_graph" in o["instance"] or "mst_sink_resolver" in o["instance"],
                min_instances=20)
     chk.count_scenarios(n_sc, True)
+
+
+class _Resolved(Exception):
+    pass
+
+
+def pits_trigger_rule(db, chk, uname, impls):
+    """C01-E7: interpret mst_sink_resolver's apply() up to the point where it decides whether there
+    is anything to resolve; compute_basins is summarised by the scenario (its own behaviour is
+    C19), pits() / is_base_level are the repository's code over the scenario's tables"""
+    import itertools
+    from ..interp import Interp, World, PyVec, NOT_HANDLED, ThrowEx
+    fns = {f.name: f for f in impls.get(MST, {}).get("fns", [])}
+    fn = fns.get("apply")
+    if fn is None:
+        raise AnalysisBroken("C01-E7: mst_sink_resolver apply not instantiated in %s" % uname)
+    n = 0
+    # outlets: up to 3, each a base level or not; plus 0..2 base levels that are no outlets
+    for k in range(0, 4):
+        for kinds in itertools.product((True, False), repeat=k):
+            for extra in range(0, 3):
+                n += 1
+                outlets = list(range(k))
+                base = set(i for i, b in enumerate(kinds) if b) | set(range(10, 10 + extra))
+                state = {"resolved": False}
+
+                class PW(World):
+                    def before_call(self, it, f2, call, callee, frame):
+                        nm = callee.bn.split("::")[-1]
+                        if nm == "compute_basins":
+                            return None
+                        if nm == "is_base_level":
+                            return it.rv(it.eval(call["a"][0], frame)) in base
+                        if nm == "get_basin_graph":
+                            return Sym("basin_graph", "bg")
+                        if callee.bn.endswith("basin_graph::update_routes") or nm.startswith("update_routes_sinks"):
+                            state["resolved"] = True
+                            raise _Resolved()
+                        return NOT_HANDLED
+
+                    def external(self, it, f2, call, frame):
+                        nm = (call.get("bn") or "").split("::")[-1]
+                        obj = call.get("obj")
+                        if obj is not None:
+                            o = it.rv(it.eval(obj, frame))
+                            if isinstance(o, frozenset):
+                                if nm == "size":
+                                    return len(o)
+                                if nm == "empty":
+                                    return len(o) == 0
+                                if nm == "count":
+                                    return 1 if it.rv(it.eval(call["a"][0], frame)) in o else 0
+                        return NOT_HANDLED
+                g = None
+                for r in fn.unit.records:
+                    if r["bn"] == model.GRAPH_IMPL:
+                        g = r
+                        break
+                gobj = Obj(model.GRAPH_IMPL, {"m_outlets": PyVec(outlets), "m_pits": PyVec([99]),
+                                              "m_base_levels": frozenset(base), "m_mask_initialized": False,
+                                              "m_basins": PyVec()})
+                it = Interp(PW(), max_steps=20000)
+                this = Obj(fn.cls, {"m_basin_graph_ptr": None, "m_op_ptr": Obj(MST, {"m_route_method": 0, "m_basin_method": 0})})
+                bad = []
+                try:
+                    it.call_fn(fn, this, [gobj, sinks.Elev([0.0] * 12), Sym("pool", "p")])
+                except _Resolved:
+                    pass
+                except ThrowEx as ex:
+                    bad.append("threw %s" % ex.text[:60])
+                has_pit = any(not b for b in kinds)
+                if has_pit and not state["resolved"] and not bad:
+                    bad.append("returns without resolving although outlet(s) %r are not base levels"
+                               % [i for i, b in enumerate(kinds) if not b])
+                chk.ob("C01-E7", "[%s] outlets %s, %d base level(s) that are no outlets" % (
+                    uname, "[" + ", ".join("base" if b else "pit" for b in kinds) + "]", extra), not bad,
+                    where=fn.ploc, function=fn.bn, construct="mst-trigger", detail="; ".join(bad),
+                    extra={"unit": uname}, sample=k > 1)
+    return n
 
 
 def reroute_rule(db, chk, uname, impls):
